@@ -11,11 +11,20 @@ var commonSkips = map[string]string{
 	"unknown-enum-number": "an enum number the schema does not define has no label in any format",
 }
 
+var firstActorExits = map[string]string{
+	"break":        "the package has room for one person: the selection stops at the first (first-actor-written checks that it is the first)",
+	"return-value": "the package has room for one person: the selection stops at the first (first-actor-written checks that it is the first)",
+}
+
 var loopPolicies = map[string]loopPolicy{
 	// --- SPDX 2.3 writer ---
 	"serializers.(*SPDX23).buildPackages/Nodes":              {skips: map[string]string{"kind-filter": "files are emitted by buildFiles (complementarity checked separately)"}},
 	"serializers.buildFiles/Nodes":                           {skips: map[string]string{"kind-filter": "packages are emitted by buildPackages (complementarity checked separately)"}},
 	"serializers.(*SPDX23).buildPackages/ExternalReferences": {skips: map[string]string{"empty(Url)": "an SPDX external reference needs a locator"}},
+	// SPDX 2.3 carries one supplier and one originator; which one is decided by first-actor-written
+	"serializers.(*SPDX23).buildPackages/Suppliers":      {exits: firstActorExits},
+	"serializers.(*SPDX23).buildPackages/Originators":    {exits: firstActorExits},
+	"serializers.(*SPDX23).buildPackages/[]*sbom.Person": {exits: firstActorExits},
 	// --- CycloneDX writer ---
 	"serializers.(*CDX).componentsMaps/Nodes":                     {skips: map[string]string{"lookup-miss": "nodeToComponent returns nil only for a nil node element"}},
 	"serializers.(*CDX).dependencies/Edges":                       {skips: map[string]string{"switch-default(sbom.Edge_Type)": "CycloneDX expresses only containment and dependency"}},
